@@ -51,6 +51,7 @@ func CreatePropellerUnits(
 			// todo(rdr): assigning one shard per unit until multi shard algo per unit
 			//            is clear to me.
 			ShardData: []Shard{shard},
+			Nonce:     nonce,
 		}
 	}
 	return units, nil
